@@ -61,6 +61,15 @@ def realize(seq, kind, mv):
             [None if v == 3 else float(v) for v in seq]
     if kind == 'int':
         return pd.Series([int(v) for v in seq], dtype='int64'), [int(v) for v in seq]
+    if kind == 'Int64':       # nullable extension dtypes: missing is pd.NA
+        return pd.Series([None if v == 3 else int(v) for v in seq], dtype='Int64'), \
+            [None if v == 3 else int(v) for v in seq]
+    if kind == 'string':
+        return pd.Series([None if v == 3 else 'abc'[v] for v in seq], dtype='string'), \
+            [None if v == 3 else 'abc'[v] for v in seq]
+    if kind == 'boolean':
+        return pd.Series([None if v == 3 else bool(v % 2) for v in seq], dtype='boolean'), \
+            [None if v == 3 else bool(v % 2) for v in seq]
     raise ValueError(kind)
 
 
@@ -149,10 +158,11 @@ def layers(tier):
         step = 256
         for lo in range(0, tot, step):
             jobs.append({'n': n, 'lo': lo, 'hi': min(lo + step, tot),
-                         'kinds': ['object', 'float', 'int', 'str'] if (n <= 5 or not quick) else ['object', 'float'],
+                         'kinds': ['object', 'float', 'int', 'str', 'Int64', 'string', 'boolean'] if (n <= 4 or not quick)
+                         else (['object', 'float', 'Int64'] if n == 5 else ['object', 'float']),
                          'menus': 6 if (n <= 4 or not quick) else 3, 'seed': sd})
     Ls = [Layer('small-columns', 'checks.c17:w_small', jobs,
-                'all 5460 columns of length 1..6 over {a,b,c,missing} as object / str / float / int columns in '
+                'all 5460 columns of length 1..6 over {a,b,c,missing} as object / str / float / int / nullable Int64 / string / boolean columns in '
                 '1-3 column tables x profile_attrs in {None, subsets, permuted}; exact counts, percentages, '
                 'comment rules, row order and index; non-trivial = column with a duplicate or a missing value',
                 min_nontrivial=1000, chunksize=1)]
